@@ -5,7 +5,8 @@ set -eu
 cd "$(dirname "$0")/.."
 export GOFLAGS=-mod=mod GOPROXY=off GOSUMDB=off GOTOOLCHAIN=local GODEBUG=goindex=0
 h="$1"; out="$2"; shift 2
-w="${VERIF_WORK:-$PWD/.work/adhoc.$$}"; mkdir -p "$w/gen"
+# INSTR_FLAGS=-wire-only: only the in-memory wire replaces the gRPC clients (free-running -race twins)
+w="${VERIF_WORK:-$PWD/.work/adhoc.$$}"; g="gen${INSTR_FLAGS:+.wire}"; mkdir -p "$w/$g"
 go build -o "$w/instr" ./instr
-"$w/instr" -config instr/owned.json -out "$w/gen" -overlay "$w/overlay.json"
-go build -tags verif -overlay "$w/overlay.json" "$@" -o "$out" "./$h"
+"$w/instr" ${INSTR_FLAGS:-} -config instr/owned.json -out "$w/$g" -overlay "$w/overlay.$g.json"
+go build -tags verif -overlay "$w/overlay.$g.json" "$@" -o "$out" "./$h"
